@@ -19,7 +19,7 @@ POOLS = {
           127, 128, -128, -129, 255, 256, 32767, 32768, -32768, 65535, 65536, 2**31 - 1, 2**32],     # width boundaries
     "b": [True, False],
     "s": ["", "a", "b", "ab", "B", "é", "日本", "😀", " a", P49 + "a", P49 + "b", P49, "q" * 70, "a\x00", "a\x00b",
-          "None", "nan", "NaT", "Ł", "İ"],      # spellings of other dtypes' missing values; code points >= U+0100
+          "None", "nan", "NaT", "Ł", "İ", "\x00", "\x00\x00", "a\x00bc", "a\x00bd", "C:\\temp", "tail\\", "x, y", "k: v"],      # spellings of other dtypes' missing values; code points >= U+0100
     "u": ["", "a", "b", "ab", "B", "é", "日本", " a", "None", "nan", "Ł"],
     "d": [None, "1970-01-01", "1969-12-31", "2020-12-31", "2021-01-03", "2024-02-29", "0001-01-01", "9999-12-31"],
     "t": [None, "1970-01-01T00:00:00.000001", "1969-12-31T23:59:59", "2020-12-31T12:00:00",
@@ -137,6 +137,7 @@ def nrows(max_rows):
 NAMES_PLAIN = ["a", "b", "c", "x1", "é", "_p", "g", "h"]
 NAMES_CLASH = ["items", "keys", "filter", "sort", "copy", "update", "pop", "nrow", "colnames", "values", "get"]
 NAMES_NONID = ["a b", "1x", "x-y", ""]
+NAMES_PADDED = [" a", "a ", " p ", "\tq"]            # surrounding whitespace is part of a name
 
 
 @st.composite
@@ -144,7 +145,7 @@ def names(draw, k, plain_only=False):
     if plain_only:
         pool = NAMES_PLAIN
     else:
-        pool = NAMES_PLAIN * 3 + NAMES_CLASH + NAMES_NONID[:3]
+        pool = NAMES_PLAIN * 3 + NAMES_CLASH + NAMES_NONID[:3] + NAMES_PADDED
     out = []
     while len(out) < k:
         n = draw(st.sampled_from(pool))
@@ -210,6 +211,8 @@ def decorate(draw, fp):
     r = draw(st.integers(0, 11))
     if r == 0:
         fp["layout"] = "strided"
+    elif r == 2:
+        fp["layout"] = "bigendian"
     elif r == 1:
         fp["via"] = draw(st.sampled_from(VIAS))
     return fp
